@@ -22,6 +22,14 @@ to a sink owned by the harness.  The expectation comes from mc/ref/argv_split.py
 table + "everything after the target specification is the target's").  `fakesnow.patch` is wrapped while main runs
 to see the db_path it is called with; eight further runs check end to end that the database file appears under -d.
 
+PAIRS.  Besides the BFS, every ordered pair (a, b) of target lists (quick: b from PAIR_SECOND_QUICK) is executed as "block with a, left normally if it
+could be entered; then enter with b" with the full set of probes, so that what patch() may remember of an earlier call
+(valid extras then none, failing extras then none, extras A then extras B) is judged inside the later block.
+
+Pristine state.  Every work item starts by importing the fakesnow package afresh, every history by re-executing
+fakesnow/__init__.py (besides reinstating the originals and un-importing the helper modules): behaviour is a function of
+the item / history alone, and module-level state of patch() is exercised *within* histories.
+
 OPTIONS (differential).  patch(**options) must behave like FakeSnow(**options) used directly, for the full product of
 option values (they reach the instance).
 
@@ -34,6 +42,13 @@ Clauses
                                    (for a target in a module patch() has to import: imported-by=this-patch |
                                    earlier-patch; if the earlier, importing patch() did not list the attribute the
                                    class is target=unimported-module-attr:<connect|write_pandas>,..,not-listed-then)
+  C20.inside.only_own_targets      ... and only those: a watched attribute that is not listed and was the original
+                                   before the enter is still the original inside         class  not-listed=<kind>
+  C20.state_after_history          replaying a history from the pristine state goes through the states it went
+                                   through when it was first executed (and the same work item run twice gives the
+                                   same observations): otherwise the implementation keeps something between
+                                   histories.  Reported as a verdict, exploration continues from the observed state
+                                                   class  op=<operation after which it differs>,differs=<what> | rerun-of-same-history-differs
   C20.restore_after_exit           after leaving the outermost block every standard and every listed target `is`
                                    the original                                          class  target=<kind>,exit=<mode>
                                    (target=unimported-module-attr,not-listed-by-importing-patch,exit=<mode> as above)
@@ -66,9 +81,8 @@ Not demanded
     refused (if the enter succeeds the block is treated as open);
   * the errno of the error raised by a closed connection (C07's business), only that it raises;
   * whether the body's exception is propagated unchanged (contextlib's job), only that no *other* exception appears;
-  * attributes that are not targets of the block (a from-import in a module that was not listed stays what it was;
-    a name of a freshly imported module that the block does not list may stay a mock - it is judged when a block
-    lists it);
+  * names of a module that the block's own patch() imported and that the block does not list (they are bound to the
+    mocks at import time; C20.inside.only_own_targets judges only what was the original before the enter);
   * sys.argv[0] and `__name__` seen by the target, main()'s return value, usage texts, sys.path handling;
   * abbreviated long options (`--db`, `--mod`), `-d=VALUE`, `-h` clusters, `--` followed by an option-like token:
     outside the token alphabet / classified "unspecified" by the reference;
@@ -174,6 +188,15 @@ NESTED_INNER_QUICK = ["none", "from-import-connect", "unimported-module", "unimp
 EXIT_MODES = ["normal", "exception"]
 MAX_DEPTH = 2  # only reachable if the implementation accepts a nested entry
 HISTORIES_PER_STATE = {"quick": 1, "thorough": 2}
+# pairs sweep (earlier block a, later enter b): a ranges over every target list of the tier, b over these in quick
+PAIR_SECOND_QUICK = [
+    "none", "from-import-connect", "from-import-write_pandas", "aliased", "unimported-module", "unimported-aliased",
+    "unimported-two-modules-same-alias", "nonexistent-attr",
+]  # fmt: skip
+
+
+def pair_seconds(tier):
+    return PAIR_SECOND_QUICK if tier == "quick" else list(TARGET_LISTS)
 
 
 def target_lists(tier):
@@ -229,16 +252,20 @@ def originals():
     return _ORIG
 
 
-def fresh_fakesnow(cli=False):
-    """Re-execute fakesnow/__init__.py (and fakesnow/cli.py) so that whatever patch()/main() keep at module level
-    starts fresh: every history begins in a pristine state, and state kept there shows *within* a history."""
-    import fakesnow
-
-    importlib.reload(fakesnow)
-    if cli:
-        import fakesnow.cli
-
-        importlib.reload(fakesnow.cli)
+def fresh_fakesnow(whole_package=False):
+    """Fresh module-level state of the subject.  whole_package (once per work item): forget every fakesnow module and
+    import the package again, so a work item never sees what an earlier item of the same worker process left in any
+    fakesnow module - its behaviour is a function of the item alone.  Otherwise (before every history): re-execute
+    fakesnow/__init__.py, where patch() lives, so every history starts with patch()'s module-level state fresh and
+    whatever patch() keeps there between calls shows *within* a history (earlier block -> later block)."""
+    force_restore()
+    if whole_package:
+        for name in [n for n in sys.modules if n == "fakesnow" or n.startswith("fakesnow.")]:
+            del sys.modules[name]
+        importlib.import_module("fakesnow")
+        importlib.import_module("fakesnow.cli")
+    else:
+        importlib.reload(importlib.import_module("fakesnow"))
     core.assert_repo()
 
 
@@ -284,7 +311,7 @@ def sandbox(prefix, files):
                 f.write(src)
         importlib.invalidate_caches()
         sys.path.insert(0, d)
-        fresh_fakesnow(cli=True)
+        fresh_fakesnow(whole_package=True)
         try:
             yield d
         finally:
@@ -665,14 +692,14 @@ def work_pairs(item, acc, tier):
     a = item[1]
     n = 0
     with sandbox("c20q", {f"{m}.py": s for m, s in HELPER_SRC.items()}):
-        for b in target_lists(tier):
+        for b in pair_seconds(tier):
             hist = [("enter", a), ("exit", "normal")]
             op = ("enter", b)
             pre, obs, post, imp, _trace = run_patch_history(hist, op)
             record_transition(acc, "patch_pair_transitions", pre, op, obs, post, imp, hist)
             n += 1
         if a == "from-import-connect":
-            acc.sample({"part": "patch-pairs", "first_block": a, "then_enter_each_of": target_lists(tier)})
+            acc.sample({"part": "patch-pairs", "first_block": a, "then_enter_each_of": pair_seconds(tier)})
     return n
 
 
@@ -1076,6 +1103,9 @@ def run(ctx: core.Ctx):
     )
     ctx.assumptions = [
         "helper/target modules generated under /verif/.work are representative of user modules doing from-imports",
+        "pristine state = originals reinstated, helper modules un-imported, fakesnow/__init__.py re-executed (whole "
+        "package re-imported once per work item); a replay that leaves the first-visit states is a verdict "
+        "(C20.state_after_history), not a harness error",
         "states with equal (open blocks, lazy-module status, leaked attributes, last event) have equal futures; "
         "cross-checked in the thorough tier by expanding each state from a second, different history",
         "the reference splitter encodes argparse's grammar for the option table (selftest/test_c20.py compares it with "
